@@ -2,11 +2,15 @@ package fakesock
 
 import (
 	"fmt"
+	"io/ioutil"
+	"log"
+	"os"
 	"path/filepath"
 	"reflect"
 	"sort"
 	"strings"
 	"sync"
+	"sync/atomic"
 	"time"
 
 	"verifharness/pkg/vh"
@@ -21,6 +25,7 @@ type caseOut struct {
 // Main is the whole harness of property prop ("C17" or "C02").
 func Main(prop string) {
 	o := vh.ParseFlags()
+	log.SetOutput(ioutil.Discard) // graphql/server.go logs every rejected message
 	run := vh.NewRun(prop, o)
 	if prop == "C17" {
 		run.Rule = "histories of subscribe / unsubscribe / mutate / echo / url / unknown / malformed messages (30% colliding ids), data changes + invalidations, resolver failures (plain/safe/panic), context cancellation and socket close at any point; non-trivial = at least one subscription or mutation was accepted and ended and at least three different kinds of label occur; distinct by the JSON text of the case"
@@ -50,7 +55,21 @@ func Main(prop string) {
 		}
 	}
 
+	// the hook call sites must be there, otherwise nothing can be observed
+	probe := RunCase(Case{Max: 3, PostWait: 1, Ops: []Op{{Op: "subscribe", ID: "s1", Q: 0}, {Op: "close"}}}, 5*time.Second)
+	hooks := false
+	for _, e := range probe.Events {
+		if e.Kind == "hook" && e.Point == "conn.handleSubscribe.accept" {
+			hooks = true
+		}
+	}
+	if !hooks {
+		fmt.Println("graphql/server.go has no verifhook call sites (or was not built with -tags verif): apply patches/C17-hooks.patch; the history of the connection cannot be observed")
+		os.Exit(3)
+	}
+
 	outs := make([]*caseOut, len(cases))
+	var lost int32
 	workers := 6
 	var wg sync.WaitGroup
 	next := make(chan int, len(cases))
@@ -71,7 +90,17 @@ func Main(prop string) {
 							co.fs = append(co.fs, Finding{"harness-panic", fmt.Sprint(e)})
 						}
 					}()
-					co.res = RunCase(cases[i], timeout)
+					to := timeout
+					if atomic.LoadInt32(&lost) >= 3 {
+						to = 2 * time.Second
+					}
+					co.res = RunCase(cases[i], to)
+					for _, p := range co.res.Problems {
+						if p.Sig == "harness-wait-timeout" {
+							atomic.AddInt32(&lost, 1)
+							break
+						}
+					}
 					if prop == "C17" {
 						co.fs = OracleC17(co.res)
 					} else {
